@@ -73,4 +73,33 @@ def judge(spec, inputs, out, ob):
             inb = all(lo[j] <= f <= hi[j] for j, f in forced.items())
             if red and not (feas2 and inb):
                 bad.append("point %s solves the reduced system but its extension %s does not solve the original / leaves the box" % ([x[j] for j in rem_c], x2))
+    # besides the given point: the whole box when it is small (exact comparison of solution sets)
+    size = 1
+    for j in range(nc):
+        size *= (hi[j] - lo[j] + 1)
+    if not bad and size <= 20000:
+        sols = [p for p in itertools.product(*[range(lo[j], hi[j] + 1) for j in range(nc)])
+                if all(sum(A[i][j] * p[j] for j in range(nc)) >= b[i] for i in range(nr))]
+        if spec["part"] == "rows":
+            for i in range(nr):
+                if out["rr"][i]:
+                    for p in itertools.product(*[range(lo[j], hi[j] + 1) for j in range(nc)]):
+                        if sum(A[i][j] * p[j] for j in range(nc)) < b[i]:
+                            bad.append("row %d reported reducible but violated at in-box point %s" % (i, list(p)))
+                            break
+        elif spec["part"] == "cols":
+            for j in range(nc):
+                if out["fc"][j] is not None and any(p[j] != out["fc"][j] for p in sols):
+                    bad.append("column %d reported forced to %s but a solution has another value" % (j, out["fc"][j]))
+        elif out.get("Rshape") == [len([i for i in range(nr) if not out["rows"][i]]), len([j for j in range(nc) if out["cols"][j] is None]) + 1]:
+            forced = {j: v for j, v in enumerate(out["cols"]) if v is not None}
+            rem_c = [j for j in range(nc) if j not in forced]
+            R = out["R"]
+            proj = set(tuple(p[j] for j in rem_c) for p in sols)
+            if any(any(p[j] != f for j, f in forced.items()) for p in sols):
+                bad.append("a solution of the original does not take the forced values %s" % forced)
+            red = set(q for q in itertools.product(*[range(lo[j], hi[j] + 1) for j in rem_c])
+                      if all(sum(R[ii][jj + 1] * q[jj] for jj in range(len(rem_c))) >= R[ii][0] for ii in range(len(R))))
+            if red != proj:
+                bad.append("reduced solution set (%d points) is not the projection of the original one (%d points)" % (len(red), len(proj)))
     return bool(bad), "; ".join(bad) + " | A=%s inputs=%s" % (A, inputs)
